@@ -47,6 +47,7 @@ type Task struct {
 	prio    int
 	joiners []*Task
 	started bool
+	killed  bool
 }
 
 type PanicInfo struct {
@@ -100,14 +101,15 @@ type World struct {
 	Deadlock  *DeadlockInfo
 	OverSteps bool
 
-	digest  uint64
-	LogOn   bool
-	Log     []string
-	Stats   map[string]int
-	statK   []string
-	statV   []int
-	token   byte // address for the end-of-world happens-before edge (tasks -> Run's caller)
-	Preempt int  // number of times a runnable current task was switched out
+	digest    uint64
+	LogOn     bool
+	Log       []string
+	Stats     map[string]int
+	statK     []string
+	statV     []int
+	token     byte // address for the end-of-world happens-before edge (tasks -> Run's caller)
+	exclusive bool // only the current task runs (harness-side checks on a swapped file system)
+	Preempt   int  // number of times a runnable current task was switched out
 }
 
 type timer struct {
@@ -248,7 +250,7 @@ func (w *World) taskMain(t *Task) {
 	raceEnable()
 	defer w.taskEnd(t)
 	defer raceReleaseMerge(unsafe.Pointer(&w.token))
-	if w.isDead() {
+	if w.isDead() || w.isKilled(t) {
 		return
 	}
 	t.fn()
@@ -256,6 +258,39 @@ func (w *World) taskMain(t *Task) {
 
 //go:norace
 func (w *World) isDead() bool { return w.dead }
+
+//go:norace
+func (w *World) isKilled(t *Task) bool { return t.killed }
+
+// Exclusive freezes every task but the current one: yield points do not switch,
+// sleeps return at once, tasks spawned meanwhile stay parked. The harness uses
+// it while it examines a materialised crash state with a fresh handle, so that
+// neither the flusher of the main handle nor flushers started by the fresh
+// handle run on the swapped file system.
+//
+//go:norace
+func (w *World) Exclusive(on bool) { w.exclusive = on }
+
+// TaskMark / KillSince: tasks created after the mark are unwound (they are
+// parked: they never ran, or wait at a yield point).
+//
+//go:norace
+func (w *World) TaskMark() int { return len(w.tasks) }
+
+//go:norace
+func (w *World) KillSince(mark int) {
+	for _, t := range w.tasks[mark:] {
+		if t.state == tDone {
+			continue
+		}
+		t.killed = true
+		t.state = tDone
+		raceDisable()
+		t.wake <- struct{}{}
+		<-t.exited
+		raceEnable()
+	}
+}
 
 //go:norace
 func (w *World) taskEnd(t *Task) {
@@ -266,6 +301,12 @@ func (w *World) taskEnd(t *Task) {
 		}
 	}
 	t.state = tDone
+	if t.killed {
+		raceDisable()
+		close(t.exited)
+		raceEnable()
+		return
+	}
 	if w.dead {
 		if w.killer == t {
 			close(w.done)
@@ -395,6 +436,9 @@ func (w *World) advanceClock() bool {
 //
 //go:norace
 func (w *World) pickNext(curOK bool) *Task {
+	if w.exclusive && curOK && w.cur.state == tRunnable {
+		return w.cur
+	}
 	for {
 		r := w.runnable()
 		if len(r) == 0 {
@@ -498,7 +542,7 @@ func (w *World) switchTo(next *Task) {
 	next.wake <- struct{}{}
 	<-self.wake
 	raceEnable()
-	if w.dead {
+	if w.dead || self.killed {
 		runtime.Goexit()
 	}
 }
@@ -560,7 +604,7 @@ func (w *World) Sleep(d time.Duration) {
 	if w.dead {
 		return
 	}
-	if d <= 0 {
+	if d <= 0 || w.exclusive {
 		w.Yield("sleep0")
 		return
 	}
